@@ -35,9 +35,11 @@ def compositeOut : Option Kind → Bool
     may declare that it implements one or more unique interfaces"; 3.8 Unions: "the member types of a union type must
     all be object base types"; 3.6/3.7: "the argument must accept a type where IsInputType(argumentType)") -/
 structure KindRules (types : List TypeD) : Prop where
-  interfaces : ∀ t ∈ types, t.kind = .object → ∀ i ∈ t.interfaces, kindAt types i = some .interface
-  members : ∀ t ∈ types, t.kind = .union → ∀ m ∈ t.members, kindAt types m = some .object
-  args : ∀ t ∈ types, ∀ f ∈ t.fields, ∀ a ∈ f.args, compositeOut (kindAt types a.type.base) = false
+  /-- (`none`: a name outside the list — a specified scalar or an introspection type, which refers to nothing in it) -/
+  interfaces : ∀ t ∈ types, t.kind = .object → ∀ i ∈ t.interfaces, kindAt types i = some .interface ∨ kindAt types i = none
+  members : ∀ t ∈ types, t.kind = .union → ∀ m ∈ t.members, kindAt types m = some .object ∨ kindAt types m = none
+  args : ∀ t ∈ types, (t.kind = .object ∨ t.kind = .interface) → ∀ f ∈ t.fields, ∀ a ∈ f.args,
+    compositeOut (kindAt types a.type.base) = false
 
 def rank : Kind → Nat
   | .union => 3 | .object => 2 | .interface => 1 | _ => 0
@@ -50,11 +52,12 @@ private theorem rk_input (types : List TypeD) (n : String) (h : compositeOut (ki
   | none => rfl
   | some k => rw [hk] at h; cases k <;> simp_all [compositeOut, rank]
 
-private theorem args_rank (types : List TypeD) (K : KindRules types) (t : TypeD) (ht : t ∈ types) (m : String)
+private theorem args_rank (types : List TypeD) (K : KindRules types) (t : TypeD) (ht : t ∈ types)
+    (hk : t.kind = .object ∨ t.kind = .interface) (m : String)
     (h : m ∈ t.fields.flatMap fun f => f.args.map (·.type.base)) : rk types m = 0 := by
   obtain ⟨f, hf, ha⟩ := List.mem_flatMap.mp h
   obtain ⟨a, haa, rfl⟩ := List.mem_map.mp ha
-  exact rk_input types _ (K.args t ht f hf a haa)
+  exact rk_input types _ (K.args t ht hk f hf a haa)
 
 /-- an eager reference goes strictly DOWN in union > object > interface > input/leaf -/
 theorem eager_step (types : List TypeD) (K : KindRules types) (t : TypeD) (ht : t ∈ types) (m : String)
@@ -63,12 +66,10 @@ theorem eager_step (types : List TypeD) (K : KindRules types) (t : TypeD) (ht : 
   cases hk : t.kind <;> simp only [hk] at hm
   · simp at hm
   · rcases List.mem_append.mp hm with h | h
-    · have := K.interfaces t ht hk m h
-      simp [rk, this, rank]
-    · rw [args_rank types K t ht m h]; simp [rank]
-  · rw [args_rank types K t ht m hm]; simp [rank]
-  · have := K.members t ht hk m hm
-    simp [rk, this, rank]
+    · rcases K.interfaces t ht hk m h with h' | h' <;> simp [rk, h', rank]
+    · rw [args_rank types K t ht (Or.inl hk) m h]; simp [rank]
+  · rw [args_rank types K t ht (Or.inr hk) m hm]; simp [rank]
+  · rcases K.members t ht hk m hm with h' | h' <;> simp [rk, h', rank]
   · simp at hm
   · simp at hm
 
